@@ -144,7 +144,8 @@ class LineReader(Iterable):
             for line in self._iter_from_pagexml_docs(pagexml_doc_iterator):
                 yield line
         if len(self.pagexml_docs) > 0:
-            self._iter_from_pagexml_docs(self.pagexml_docs)
+            for line in self._iter_from_pagexml_docs(self.pagexml_docs):
+                yield line
 
     def _iter_from_pagexml_docs(self, pagexml_doc_iterator) -> Generator[Dict[str, any], None, None]:
         for pagexml_doc in pagexml_doc_iterator:
